@@ -294,6 +294,76 @@ def r18_4(ctx, fx):
     ctx.floor(rid, n, 7, "core verdicts")
 
 
+def r18_5(ctx, fx):
+    rid = "R18.5"
+    ctx.rule(rid, "approximation direction: the helpers that turn the constraints of the relation into non-strict inequalities (assign_all_inequalities_approximation, generic and C_Polyhedron versions) insert, for a constraint c with expression e, only constraints that c implies — for an equality e = 0: e >= k with k <= 0, e <= k with k >= 0; for a strict inequality e > 0: e >= k or e > k with k <= 0; otherwise c itself. The termination tests are sound for a relation that contains the given one; a stronger constraint drops transitions and lets the tests certify loops that do not terminate")
+    fs = [f for f in fx.functions if f.name == "assign_all_inequalities_approximation" and f.relfile.endswith("termination.cc") and f.cfg]
+    ctx.require(rid, len(fs) >= 2, "assign_all_inequalities_approximation: expected the generic and the C_Polyhedron version in termination.cc, found %d" % len(fs))
+    n = 0
+    for f in fs:
+        for c in f.calls():
+            if c["k"] != "mcall" or f.call_name(c) != "insert" or len(f.call_args(c)) != 1:
+                continue
+            arg = f.deref(f.call_args(c)[0])
+            while arg is not None and arg["k"] in ("cast", "paren", "construct", "temp", "bind") and arg.get("c") and len(arg["c"]) == 1:
+                arg = f.deref(arg["c"][0])
+            # the arm: innermost enclosing `if` on a predicate of the current constraint
+            kind = "as-is"
+            child = c
+            for a in f.ancestors(c):
+                if a["k"] == "if":
+                    ct = f.text(f.deref(a["c"][2])).replace(" ", "")
+                    then = f.deref(a["c"][3])
+                    if f.within(child, then) and ct.endswith("is_equality()"):
+                        kind = "eq"
+                        break
+                    if f.within(child, then) and ct.endswith("is_strict_inequality()"):
+                        kind = "strict"
+                        break
+            n += 1
+            inst = "%s (line %s) inserts `%s` for %s" % (f.name, f.line, f.text(arg), {"eq": "an equality", "strict": "a strict inequality", "as-is": "any other constraint"}[kind])
+            if arg is not None and arg["k"] == "ref":
+                if kind == "as-is":
+                    ctx.ok(rid, inst, f.where(c))
+                else:
+                    ctx.violation(rid, inst, f.where(c), "the %s is inserted unchanged into a system that must hold non-strict inequalities only" % kind)
+                continue
+            ctx.require(rid, arg is not None and arg["k"] in ("ocall", "call") and arg.get("op") in ("<=", ">=", "<", ">", "=="), "%s: unknown form of the inserted constraint `%s`" % (f.name, f.text(arg)))
+            ops = [f.deref(x) for x in arg["c"]][-2:]
+
+            def lit(x):
+                while x is not None and x["k"] in ("cast", "paren", "construct", "temp", "bind") and x.get("c") and len(x["c"]) == 1:
+                    x = f.deref(x["c"][0])
+                neg = 1
+                if x is not None and x["k"] == "unop" and x.get("op") == "-":
+                    neg = -1
+                    x = f.deref(x["c"][0])
+                if x is not None and x["k"] in ("int", "lit") and str(x.get("v", "")).lstrip("-").isdigit():
+                    return neg * int(x["v"])
+                return None
+            kl, kr = lit(ops[0]), lit(ops[1])
+            ctx.require(rid, (kl is None) != (kr is None), "%s: unknown form of the inserted constraint `%s`" % (f.name, f.text(arg)))
+            op, k, e = (arg["op"], kr, ops[0]) if kr is not None else ({"<=": ">=", ">=": "<=", "<": ">", ">": "<", "==": "=="}[arg["op"]], kl, ops[1])
+            # e must be the expression of the current constraint
+            et = f.text(e).replace(" ", "")
+            src = et
+            if e["k"] == "ref" and e.get("dk") == "local":
+                v = [x for x in f.walk() if x["k"] == "var" and x.get("n") == e["n"] and x.get("c")]
+                ctx.require(rid, len(v) >= 1, "%s: definition of `%s` not found" % (f.name, et))
+                vv = [x for x in v if f.within(x, [a for a in f.ancestors(c) if a["k"] in ("block", "compound", "if")][0])] or v
+                src = f.text(f.deref(vv[0]["c"][0])).replace(" ", "")
+            ctx.require(rid, "expression()" in src, "%s: `%s` is not the expression of the current constraint" % (f.name, et))
+            ok = (kind == "eq" and ((op == ">=" and k <= 0) or (op == "<=" and k >= 0) or (op == "==" and k == 0))) or \
+                 (kind == "strict" and op in (">=", ">") and k <= 0)
+            if kind == "as-is":
+                ctx.violation(rid, inst, f.where(c), "a constraint that is neither an equality nor strict is replaced by `%s`" % f.text(arg))
+            elif ok:
+                ctx.ok(rid, inst, f.where(c))
+            else:
+                ctx.violation(rid, inst, f.where(c), "`e %s %d` is not implied by %s: the approximation drops transitions of the relation (those with e between 0 and %d), so the tests can certify a loop that does not terminate" % (op, k, "e = 0" if kind == "eq" else "e > 0", k))
+    ctx.floor(rid, n, 7, "constraints inserted by the approximation helpers")
+
+
 def run(ctx):
     ctx.explanation = ("C18 thin structural claim: the 14 public termination wrappers validate first, forward to the core of their own method with the relations in order, "
                        "treat the empty relation alike, and the cores hand out a ranking function only after a satisfiable MIP; decides these clauses, "
@@ -307,3 +377,4 @@ def run(ctx):
     r18_2(ctx, ws)
     r18_3(ctx, ws)
     r18_4(ctx, fx)
+    r18_5(ctx, fx)
